@@ -5,7 +5,7 @@ from .. import land
 
 LEVEL = 'fault_enumeration'
 ENGINE = 'LAND'
-TECHNIQUE = 'exhaustive enumeration of crash points: graceful terminate, SIGKILL and target exception landing at every line-level point of the persistent child loop (receive input, call target, count, send, cleanup), for 0-3 inputs, consumed through the API and through the raw result pipe the way the Pool does; the parent-side forwarding thread held at each of its lines; forced termination; a kill in the middle of sending a result bigger than the pipe buffer'
+TECHNIQUE = 'exhaustive enumeration of crash points: graceful terminate, SIGKILL and target exception landing at every line-level point of the persistent child loop (receive input, call target, count, send, cleanup), for 0-3 inputs, consumed through the API and through the raw result pipe the way the Pool does; the parent-side forwarding thread held at each of its lines; forced termination; a kill in the middle of sending a result bigger than the pipe buffer; a result the receiving side cannot recreate'
 LEVEL_TEXT = ('one real run per (persistent class, inputs, event, landing point, consumer); oracle: the obtained results equal the first k expected results in order for some k, the stream ends (queue.Empty / end marker / EOF) within the hang bound, a second read after the end still raises queue.Empty, raw messages carry counters 1..k and are well formed')
 LEVEL_NOTE = 'one asynchronous event per run; quick: n <= 2 inputs, callee frames collapsed; thorough adds KeyboardInterrupt landings and n <= 5'
 
